@@ -196,6 +196,22 @@ def native(art, tier, stats, fnd):
             if accept:
                 r2 = run(["-o", "-", prog]); n += 1
                 if r2.stdout != open(out).read(): fnd.report("stdout-differs-from-file", "%s: `-o -` and `-o FILE` give different bytes" % prog, {"main.sy": open(os.path.join(d, prog)).read()})
+        # "prints every error": k independent errors planted -> each one is reported
+        multi = {"three_missing_modules": ({"m.sy": "use audio\nuse video\nuse net/socket\nstart :: fn do\nend\n"}, ["audio", "video", "socket"]),
+                 "missing_modules_and_syntax_error": ({"m.sy": "use audio\nuse video\nx := ) 1\nstart :: fn do\nend\n"}, ["audio", "video", "m.sy:3"]),
+                 "missing_module_inside_import": ({"m.sy": "use lib\nuse gone\nstart :: fn do\nend\n", "lib.sy": "use also_gone\nv :: 1\n"}, ["gone.sy", "also_gone"]),
+                 "three_syntax_errors": ({"m.sy": "a := ) 1\nb := 2\nc := ] 3\nd := } 4\nstart :: fn do\nend\n"}, ["m.sy:1", "m.sy:3", "m.sy:4"]),
+                 "two_unreadable_and_one_missing": ({"m.sy": "use d1\nuse d2\nuse d3\nstart :: fn do\nend\n", "d1.sy/keep": "", "d2.sy/keep": ""}, ["d1", "d2", "d3"])}
+        for name, (mfiles, needles) in multi.items():
+            dd = tempfile.mkdtemp(prefix="c20m_", dir=common.SCRATCH)
+            try:
+                for rel, text in mfiles.items():
+                    pth = os.path.join(dd, rel); os.makedirs(os.path.dirname(pth), exist_ok=True); open(pth, "w").write(text)
+                r = subprocess.run([sylt, "-o", "out.lua", "m.sy"], cwd=dd, capture_output=True, text=True, timeout=60); n += 1
+                outp = r.stdout + r.stderr
+                missing = [x for x in needles if x not in outp]
+                if r.returncode == 0 or missing: fnd.report("errors-not-all-printed:" + name, "%s: exit %d, no report mentions %s (%d independent errors planted)" % (name, r.returncode, missing, len(needles)), mfiles, cmd="sylt -o out.lua m.sy")
+            finally: shutil.rmtree(dd, ignore_errors=True)
         # existing FILE: rejected program leaves it untouched; shorter program replaces it completely
         tgt = os.path.join(d, "keep.lua"); open(tgt, "w").write("-- old content\n" * 2000)
         before = open(tgt).read(); r = run(["-o", tgt, "bad.sy"]); n += 1
@@ -244,6 +260,19 @@ def native(art, tier, stats, fnd):
         a = run(["-o", "-", "fails.sy"]).stdout; b = run(["-o", "-", "--no-std", "fails.sy"]).stdout; n += 2
         if runner.run_concrete(parse(a))[1] != runner.run_concrete(parse(b))[1] or runner.run_concrete(parse(a))[1][0] != "assert_failed":
             fnd.report("no-std-changes-behaviour", "failing assert program behaves differently with --no-std", {"main.sy": PROG_FAILS})
+        # a program that does not use the standard library but defines a global that the bundled preamble also binds
+        pre = open(common.repo_path("std/preamble.sy")).read()
+        bound = re.findall(r"^\s+(\w+),", pre, re.M) + re.findall(r"^use (\w+)", pre, re.M)
+        zx = z3.String("nm"); zs = z3.Solver(); zs.add(z3.Or([zx == z3.StringVal(b) for b in bound if b[0].islower()])); picks = []
+        for _ in range(2 if tier == "quick" else 8):
+            if stats.check(zs) != z3.sat: break
+            v = zs.model()[zx].as_string(); picks.append(v); zs.add(zx != z3.StringVal(v))
+        for nm in picks:
+            text = "%s :: fn a: int, b: int -> int do\n    if a > b do\n        ret a\n    end\n    ret b\nend\nstart :: fn do\n    %s(1, 2) <=> 2\nend\n" % (nm, nm)
+            open(os.path.join(d, "own.sy"), "w").write(text)
+            a = run(["-o", "-", "own.sy"]); b = run(["-o", "-", "--no-std", "own.sy"]); n += 2
+            if (a.returncode == 0) != (b.returncode == 0):
+                fnd.report("no-std-changes-acceptance:user-global-named-like-a-preamble-binding", "a program that defines its own global %r (and uses nothing of std) exits %d with the bundled std and %d with --no-std: %s" % (nm, a.returncode, b.returncode, (a.stdout + a.stderr)[-160:].replace("\n", " ")), {"main.sy": text}, cmd="sylt -o - main.sy; sylt --no-std -o - main.sy")
         # stdout that cannot take the output
         try:
             with open("/dev/full", "w") as full: r = subprocess.run([sylt, "-o", "-", "ok.sy"], cwd=d, stdout=full, stderr=subprocess.PIPE, text=True, timeout=60); n += 1
